@@ -1101,9 +1101,46 @@ def sibling_switches_separate_the_same_variants(ctx, rid, tab):
                         rest = {x for x in names.values() if not any(x in g for g in groups.values())}
                         if rest:
                             groups.setdefault(t[3], set()).update(rest)
-                        sites.append((str(st[2][2]), f, st[3], [frozenset(g) for g in groups.values()]))
+                        # does the switch choose *text*?  (an arm assigns a string constant, pushes or formats one)
+                        prints = False
+                        for tg0 in list(groups):
+                            chain = [tg0]
+                            while len(chain) < 3 and f.term(chain[-1])[0] == "goto":
+                                chain.append(f.term(chain[-1])[1])
+                            for cb in chain:
+                                for bb3, i3, st3 in f.stmts():
+                                    if bb3 == cb and st3[0] == "=" and st3[2][0] == "use" and st3[2][1][0] == "k" \
+                                            and isinstance(st3[2][1][2], dict) and "str" in st3[2][1][2]:
+                                        prints = True
+                                    if bb3 == cb and st3[0] == "=" and st3[2][0] in ("ref", "use", "cfd") and "str" in f.locals[st3[1][0]] \
+                                            and f.locals[st3[1][0]].strip().startswith("&"):
+                                        prints = True
+                                for c3 in f.calls():
+                                    if c3.bb == cb and (c3.name.endswith("push_str") or "fmt::Arguments" in c3.name or c3.name.endswith("format")):
+                                        prints = True
+                        if not prints:
+                            # `matches!(x, V)` first yields a bool; follow it to the switch that uses it
+                            from common import bool_branches
+                            for tg0 in list(groups):
+                                for bb3, i3, st3 in f.stmts():
+                                    if bb3 == tg0 and st3[0] == "=" and st3[2][0] == "use" and st3[2][1][0] == "k" \
+                                            and isinstance(st3[2][1][2], bool) and not st3[1][1]:
+                                        for sw3, tt3, ff3 in bool_branches(f, st3[1][0]):
+                                            for cb in (tt3, ff3):
+                                                if cb is None:
+                                                    continue
+                                                for bb4, i4, st4 in f.stmts():
+                                                    if bb4 == cb and st4[0] == "=" and ((st4[2][0] == "use" and st4[2][1][0] == "k"
+                                                                                        and isinstance(st4[2][1][2], dict) and "str" in st4[2][1][2])
+                                                                                       or (st4[2][0] in ("ref", "use", "cfd") and "str" in f.locals[st4[1][0]]
+                                                                                           and f.locals[st4[1][0]].strip().startswith("&"))):
+                                                        prints = True
+                                                for c4 in f.calls():
+                                                    if c4.bb == cb and (c4.name.endswith("push_str") or "fmt::Arguments" in c4.name):
+                                                        prints = True
+                        sites.append((str(st[2][2]), f, st[3], [frozenset(g) for g in groups.values()], prints))
     separated = {}
-    for en, f, line, groups in sites:
+    for en, f, line, groups, prints in sites:
         for g in groups:
             for h in groups:
                 if g is not h:
@@ -1111,9 +1148,13 @@ def sibling_switches_separate_the_same_variants(ctx, rid, tab):
                         for b in h:
                             separated.setdefault(en, set()).add(frozenset((a, b)))
     n = 0
-    for en, f, line, groups in sites:
+    for en, f, line, groups, prints in sites:
         n += 1
         merged = sorted({tuple(sorted(pair)) for g in groups for pair in separated.get(en, ()) if pair <= g})
+        if merged and not prints:
+            r.instance(rid, "%s %s (chooses no text)" % (short(f.id).split("::{closure")[0], en.rsplit("::", 1)[-1]), "ok",
+                       "%s:%d" % (f.file, line), "merges %s, but no arm selects or writes a string" % merged, nontrivial=False)
+            continue
         site = "%s %s" % (short(f.id).split("::{closure")[0], en.rsplit("::", 1)[-1])
         if merged and site in exc:
             r.instance(rid, "%s (line-independent site)" % site, "ok", "%s:%d" % (f.file, line), "exception: %s" % exc[site])
